@@ -198,4 +198,33 @@ def chainLast : Hier → List (StepTag × Hier) → Hier
   | H, [] => H
   | _, (_, H') :: rest => chainLast H' rest
 
+/-! ## The specification's own fuel suffices: header chains are short, synthetic blocks form no cycle -/
+
+/-- every region's header chain ends at a block within `H.length + 1` steps -/
+def hdrOK (H : Hier) : Bool := H.all fun b => !b.isRegion || (resolve H (H.length + 1) b.name).isSome
+
+def synthBlocks (H : Hier) : List Blk := H.filter fun b => !b.isRegion && !b.isOrig
+
+/-- the synthetic blocks a synthetic block can continue at (through region headers; back edges included) -/
+def synthArcs (H : Hier) (a : Blk) : List Name :=
+  a.jts.filterMap fun t => match resolve H (H.length + 1) t with
+    | some b => if b.isOrig then none else some b.name
+    | none => none
+
+/-- ranks on the synthetic blocks that strictly increase along every arc between two of them: no walk
+    passes more than `H.length` synthetic blocks between two original ones -/
+def synthRanksOK (H : Hier) (rk : Ranks) : Bool :=
+  (synthBlocks H).all fun a => match rk.get a.name with
+    | none => false
+    | some ra => ra ≤ H.length && (synthArcs H a).all fun t => match rk.get t with
+      | none => false
+      | some rt => ra < rt && rt ≤ H.length
+
+/-- untrusted: ranks by peeling -/
+def computeSynthRanks (H : Hier) : Ranks :=
+  let tbl := (synthBlocks H).map fun a => (a.name, synthArcs H a)
+  peelT (tbl.length + 1) 0 tbl []
+
+def fuelOK (H : Hier) : Bool := hdrOK H && synthRanksOK H (computeSynthRanks H)
+
 end Scfg.Spec
